@@ -229,6 +229,8 @@ def walk_motion(case, impl):
                     mm = spd[i] * dts
                     scale = max(1.0, d, mm, max(abs(c) for c in p + t))
                     tol = TOL * scale
+                    if case.get("regime") == "projected":
+                        tol = 0.0       # axis-aligned dyadic geometry at projected-map magnitudes: every operation is exact
                     if p == t:
                         info["rest"][i] += 1
                         if q != t:
@@ -386,6 +388,46 @@ class C11(SimCheck):
         scn["label"] = f"exact/{seed}"
         return scn
 
+    def projected_case(self, seed):
+        """projected-map coordinates (UTM-like eastings / northings of 1e5..1e7 m) and slow vehicles: the step of one
+        update (speed*dt around a millimetre) is far below 1e-9 of the coordinates' magnitude, so anything "relative"
+        in the arrival test shows (seeded C11_L). Axis-aligned, every quantity dyadic: position after k updates is
+        exactly start + k*speed*dt and the landing is exact."""
+        r = random.Random(stable_hash("C11p", seed))
+        n, dt = r.choice([1, 2, 3]), r.choice([1, 2, 4])
+        scn, _ = simgen.gen_scenario(seed, dict(self.force_cfg, nNodes=n, dt=dt), dict(self.profile), None)
+        scn = self.plain(scn)
+        for k in ("shadow", "tick", "intTime", "intArgs", "prestart", "between"):
+            scn.pop(k, None)
+        cfg = scn["cfg"]
+        dts = dt / TICK
+        base = [r.choice([7.0e6, 4194304.0, 6.5e6]), r.choice([5.0e5, 262144.0, 8.0e5]), r.choice([30.0, 1.0e5])]
+        cfg["initPos"] = [v3bits([base[0] + r.randrange(-8, 9), base[1] + r.randrange(-8, 9), base[2]]) for _ in range(n)]
+        rows, ticks = [], 4
+        for node in range(n):
+            speed = r.choice([0.25, 0.5, 1.0])
+            mm = speed * dts
+            p0 = bitsv3(cfg["initPos"][node])
+            axis = r.choice([0, 1] if base[2] < 1000 else [0, 1, 2])
+            sgn = r.choice([-1, 1])
+            k1 = r.randint(12, 40)
+            t1 = list(p0)
+            t1[axis] += sgn * k1 * mm
+            init = [["setSpeed", fbits(speed)], ["goto"] + v3bits(t1)]
+            if r.random() < 0.5:
+                init.reverse()
+            rows.append({"n": node, "cb": "initialize", "key": "", "t": 0, "reqs": init})
+            ticks = max(ticks, k1 + r.choice([2, 3, 5]))
+        cfg["duration"] = ticks * dt
+        cfg["maxIter"] = None
+        scn["drive"] = {"mode": "start"} if r.random() < 0.5 else {"mode": "steps", "n": ticks * (n + 1) + r.choice([0, 3, 10])}
+        scn["frozen"] = True
+        scn["table"] = rows
+        scn["wantPos"] = True
+        scn["regime"] = "projected"
+        scn["label"] = f"projected/{seed}"
+        return scn
+
     def route_case(self, seed):
         """patrols: every node flies a closed route W0 -> W1 -> ... -> W0 -> ... over 2-4 named places, the next leg
         requested on a schedule from the telemetry callback (sometimes mid-flight, sometimes after resting on the
@@ -444,6 +486,8 @@ class C11(SimCheck):
         m = self.route_quick if tier == "quick" else self.route_thorough
         for i in range(m):
             yield self.plain(self.route_case(stable_hash(self.prop, "route", seed, i)))
+        for i in range(m // 2):
+            yield self.projected_case(stable_hash(self.prop, "projected", seed, i))
         yield from super().generate(seed, tier)
 
     @staticmethod
